@@ -13,6 +13,12 @@ type FileFingerprint struct {
 	ModTime time.Time `json:"mod_time"`
 	Size    int64     `json:"size"`
 	CRC32   uint32    `json:"crc32,omitempty"`
+
+	// SnapshotIndex and SnapshotTerm identify the newest snapshot in the Snapshot
+	// Store at the time the fingerprint was taken, i.e. the snapshot the database
+	// file corresponds to. Zero means unknown (written by an earlier release).
+	SnapshotIndex uint64 `json:"snapshot_index,omitempty"`
+	SnapshotTerm  uint64 `json:"snapshot_term,omitempty"`
 }
 
 // WriteToFile saves the fingerprint to a file and fsyncs it to disk.
